@@ -2,7 +2,7 @@
 From Coq Require Import List ZArith NArith QArith Qcanon Bool String Ascii Lia Permutation.
 Import ListNotations.
 Require Import UPV.Core.Expr UPV.Core.Eval UPV.Proofs.Eval_lemmas UPV.Planning.Problem UPV.Planning.Sem
-  UPV.Model.PddlExpr UPV.Model.PddlLex UPV.Model.PddlEffect UPV.Proofs.PddlExpr_proofs.
+  UPV.Model.PddlExpr UPV.Model.PddlLex UPV.Model.PddlEffect UPV.Proofs.PddlExpr_proofs UPV.Proofs.PddlLex_proofs.
 
 Ltac ands H := repeat (apply andb_true_iff in H; let H' := fresh H in destruct H as [H H']).
 
@@ -508,6 +508,186 @@ Section EffRoundTrip.
       rewrite !app_nil_r, !rev_app_distr, !rev_involutive; unfold norm_effs, bylevel; fold K;
       rewrite !map_app; unfold L2, L1; rewrite filter_d1, filter_d2; rewrite <- app_assoc; reflexivity.
   Qed.
+  (* ---------------------------------------------------------------- text level: the writer's layout *)
+  Hypothesis N_fl : forall f, name_ok (nm_fl nm f) = true.
+  Hypothesis N_obj : forall o, name_ok (nm_obj nm o) = true.
+  Hypothesis N_par : forall p, name_ok (nm_par nm p) = true.
+  Hypothesis N_var : forall v, name_ok (nm_var nm v) = true.
+  Hypothesis N_ty : forall t, name_ok (nm_ty nm t) = true.
+
+  Definition ptx (x : expr) : string := match print_text nm x with Some t => t | None => "" end.
+
+  Lemma ptx_ok x : print nm x = Some (psx x) -> print_text nm x = Some (ptx x) /\ PT (ptx x) (psx x).
+  Proof.
+    intro H. destruct (text_of_print nm N_fl N_obj N_par N_var N_ty x _ H) as (t & T1 & T2). unfold ptx. rewrite T1. auto.
+  Qed.
+
+  Definition fl_t (e : effect) : string := ptx (target e).
+  Definition leaf_t (e : effect) : string :=
+    if is_true (e_val e) then fl_t e
+    else if is_false (e_val e) then tlist ["not"; fl_t e]
+    else tlist [kind_kw (e_kind e); fl_t e; ptx (e_val e)].
+  Definition body_t (e : effect) : string :=
+    if is_true (e_cond e) then leaf_t e else tlist ["when"; ptx (e_cond e); leaf_t e].
+
+  Ltac f2 := repeat (first [apply Forall2_nil | apply Forall2_cons | apply Forall_nil | apply Forall_cons]).
+
+  Lemma val_print e : OKE e -> e_isbool e = false ->
+    print nm (e_val e) = Some (psx (e_val e)).
+  Proof.
+    intros H Hb. destruct (oke_all e H) as (_ & _ & _ & _ & _ & Hv & _). rewrite Hb in Hv.
+    apply andb_true_iff in Hv as [_ Hp]. destruct (psx_ok _ _ Hp) as [V1 _]. exact V1.
+  Qed.
+
+  Lemma leaf_PT e : OKE e -> PT (leaf_t e) (leaf_s e).
+  Proof.
+    intro H. destruct (fl_shape e H) as (P1 & _ & _). destruct (ptx_ok _ P1) as [_ F]. fold (fl_t e) in F. fold (fl_s e) in F.
+    unfold leaf_t, leaf_s. destruct (is_true (e_val e)) eqn:T1; [exact F|]. destruct (is_false (e_val e)) eqn:T2.
+    - apply PT_tlist. f2; [apply PT_atom; reflexivity|exact F].
+    - assert (e_isbool e = false) as Hb.
+      { destruct (oke_all e H) as (_ & _ & _ & _ & _ & Hv & _). destruct (e_isbool e); [|reflexivity].
+        apply andb_true_iff in Hv as [Hv _]. rewrite T1, T2 in Hv. discriminate. }
+      destruct (ptx_ok _ (val_print e H Hb)) as [_ V]. apply PT_tlist.
+      f2; [apply PT_atom; destruct (e_kind e); reflexivity|exact F|exact V].
+  Qed.
+
+  Lemma body_PT e : LIVE e -> PT (body_t e) (body_s e).
+  Proof.
+    intros HL. pose proof HL as [H _]. unfold body_t, body_s, when_s. destruct (is_true (e_cond e)) eqn:Ht; [apply leaf_PT, H|].
+    destruct (cond_parse e HL Ht) as (C1 & _). destruct (ptx_ok _ C1) as [_ C].
+    apply PT_tlist. f2; [apply PT_atom; reflexivity|exact C|apply leaf_PT, H].
+  Qed.
+
+  Lemma print_item_text rw e : OKE e ->
+    print_effect_text simp nm rw e = Some (if is_false (e_cond e) then [] else [item_text nm (e_vars e) (body_t e)]).
+  Proof.
+    intro H. destruct (oke_all e H) as (S1 & _ & S3 & S4 & _ & Hv & _).
+    destruct (fl_shape e H) as (P1 & _ & _). destruct (ptx_ok _ P1) as [F1 _]. fold (fl_t e) in F1.
+    unfold print_effect_text, convert_text. rewrite S1, S3, S4, F1.
+    assert (e_isbool e && negb (is_true (e_val e)) && negb (is_false (e_val e)) = false) as NC.
+    { destruct (e_isbool e); [|reflexivity]. apply andb_true_iff in Hv as [Hv _].
+      destruct (is_true (e_val e)); [reflexivity|]. cbn [orb] in Hv. rewrite Hv. reflexivity. }
+    rewrite NC. destruct (is_false (e_cond e)) eqn:Hf; [reflexivity|].
+    unfold body_t, leaf_t.
+    assert ((if is_true (e_val e) then Some (fl_t e)
+             else if is_false (e_val e) then Some (tlist ["not"; fl_t e])
+             else option_map (fun v => tlist [kind_kw (e_kind e); fl_t e; v]) (print_text nm (simp (e_val e))))
+            = Some (if is_true (e_val e) then fl_t e else if is_false (e_val e) then tlist ["not"; fl_t e]
+                    else tlist [kind_kw (e_kind e); fl_t e; ptx (e_val e)])) as LF.
+    { destruct (is_true (e_val e)) eqn:T1; [reflexivity|]. destruct (is_false (e_val e)) eqn:T2; [reflexivity|].
+      destruct (e_isbool e) eqn:Hb.
+      - apply andb_true_iff in Hv as [Hv _]. cbn in Hv. discriminate Hv.
+      - destruct (ptx_ok _ (val_print e H Hb)) as [V1 _]. rewrite S3, V1. reflexivity. }
+    destruct (is_true (e_cond e)) eqn:Ht.
+    - rewrite LF. reflexivity.
+    - destruct (cond_parse e (conj H Hf) Ht) as (C1 & _). destruct (ptx_ok _ C1) as [C2 _]. rewrite C2. cbn [option_map].
+      rewrite LF. reflexivity.
+  Qed.
+
+  (* item = prefix ("" or one blank) + a parenthesised group read as item0 *)
+  Definition pre_t (e : effect) : string := match e_vars e with [] => " " | _ => "" end.
+  Definition unit_t (e : effect) : string :=
+    match e_vars e with [] => body_t e | vs => tlist ["forall"; tlist (var_toks nm vs); body_t e] end.
+
+  Lemma item_split e : item_text nm (e_vars e) (body_t e) = pre_t e ++ unit_t e.
+  Proof. unfold item_text, pre_t, unit_t. destruct (e_vars e); reflexivity. Qed.
+
+  Lemma unit_PT e : LIVE e -> PT (unit_t e) (item0 e).
+  Proof.
+    intro HL. unfold unit_t, item0. destruct (e_vars e) as [|p vs] eqn:Hv; cbn [wrap_forall]; [apply body_PT, HL|].
+    apply PT_tlist. f2; [apply PT_atom; reflexivity| |apply body_PT, HL].
+    apply PT_tlist. apply (tx_vars nm N_var N_ty).
+  Qed.
+
+  Lemma unit_paren e : e_vars e <> [] -> exists r, unit_t e = String "(" r.
+  Proof. unfold unit_t. destruct (e_vars e); [congruence|]. intros _. eexists. reflexivity. Qed.
+
+  Fixpoint shiftl (t : string) (l : list (string * string)) : list (string * string) :=
+    match l with [] => [(t, "")] | (pre, u) :: r => (t, pre) :: shiftl u r end.
+
+  Lemma shift_cat l : forall t, cat (shiftl t l) = t ++ concat_s (map (fun p => fst p ++ snd p) l).
+  Proof.
+    induction l as [|[pre u] r IH]; intro t; cbn [shiftl cat map concat_s fst snd].
+    - reflexivity.
+    - rewrite IH. rewrite !app_assoc_s. reflexivity.
+  Qed.
+
+  Lemma shift_F2 l : forall ss t s, LX t s -> Forall2 (fun p x => LX (snd p) x) l ss ->
+    Forall2 (fun it x => LX (fst it) x) (shiftl t l) (s :: ss).
+  Proof.
+    induction l as [|[pre u] r IH]; intros ss t s Ht F; inversion F; subst; cbn [shiftl].
+    - constructor; [exact Ht|constructor].
+    - constructor; [exact Ht|]. apply IH; assumption.
+  Qed.
+
+  Lemma shift_ok l : Forall (fun p => fst p = " " \/ (fst p = "" /\ exists r, snd p = String "(" r)) l ->
+    forall t, seps_ok2 (shiftl t l).
+  Proof.
+    induction 1 as [|[pre u] r Hp Hr IH]; intro t; cbn [shiftl seps_ok2].
+    - split; [reflexivity|]. split; [|exact I]. intros x Hx. exact Hx.
+    - cbn [fst snd] in Hp. split; [destruct Hp as [->|[-> _]]; reflexivity|]. split; [|apply IH].
+      intros x Hx. destruct Hp as [->|[-> [r' Hu]]]; [reflexivity|]. cbn [append].
+      destruct r as [|[pre' u'] r'']; cbn [shiftl cat]; rewrite Hu; reflexivity.
+  Qed.
+
+  Lemma shift_clean l : Forall (fun p => clean (fst p) /\ clean (snd p)) l -> forall t, clean t ->
+    Forall (fun it => clean (fst it) /\ clean (snd it)) (shiftl t l).
+  Proof.
+    induction 1 as [|[pre u] r [H1 H2] Hr IH]; intros t Ht; cbn [shiftl].
+    - constructor; [split; [exact Ht|reflexivity]|constructor].
+    - constructor; [split; [exact Ht|exact H1]|]. apply IH. exact H2.
+  Qed.
+
+  Lemma units_F2 l : (forall e, In e l -> LIVE e) ->
+    Forall2 (fun p x => LX (snd p) x) (map (fun e => (pre_t e, unit_t e)) l) (map item0 l).
+  Proof.
+    induction l as [|e l IH]; intro HK; [constructor|]. cbn [map]. constructor; [cbn [snd]; apply unit_PT, HK; left; reflexivity|].
+    apply IH. intros e' He'. apply HK. right. exact He'.
+  Qed.
+  Lemma units_ok l :
+    Forall (fun p => fst p = " " \/ (fst p = "" /\ exists r, snd p = String "(" r)) (map (fun e => (pre_t e, unit_t e)) l).
+  Proof.
+    induction l as [|e l IH]; [constructor|]. cbn [map]. constructor; [|exact IH].
+    cbn [fst snd]. unfold pre_t. destruct (e_vars e) eqn:Hv; [left; reflexivity|right]. split; [reflexivity|].
+    apply unit_paren. rewrite Hv. discriminate.
+  Qed.
+  Lemma units_clean l : (forall e, In e l -> LIVE e) ->
+    Forall (fun p => clean (fst p) /\ clean (snd p)) (map (fun e => (pre_t e, unit_t e)) l).
+  Proof.
+    induction l as [|e l IH]; intro HK; [constructor|]. cbn [map]. constructor.
+    - cbn [fst snd]. split; [unfold pre_t; destruct (e_vars e); reflexivity|]. apply (unit_PT e). apply HK. left. reflexivity.
+    - apply IH. intros e' He'. apply HK. right. exact He'.
+  Qed.
+
+  Theorem effects_text_roundtrip rw effs : Forall OKE effs ->
+    exists t, print_effects_text simp nm rw effs = Some t /\ parse_effects_text simp E isb t = Some (norm_effs effs).
+  Proof.
+    intro F. destruct (effects_roundtrip rw effs F) as (s & P1 & P2). rewrite (print_all rw effs F) in P1.
+    set (K := filter (fun e => negb (is_false (e_cond e))) effs) in *.
+    assert (forall e, In e K -> LIVE e) as HK.
+    { intros e He. apply filter_In in He as [He1 He2]. split; [rewrite Forall_forall in F; apply F; exact He1|].
+      apply negb_true_iff in He2. exact He2. }
+    unfold print_effects_text.
+    assert (sequence (map (print_effect_text simp nm rw) effs)
+            = Some (map (fun e => if is_false (e_cond e) then [] else [item_text nm (e_vars e) (body_t e)]) effs)) as Q.
+    { clear P1 P2 HK. induction F as [|e l He Hl IH]; [reflexivity|]. cbn [map sequence]. rewrite (print_item_text rw e He), IH. reflexivity. }
+    rewrite Q.
+    assert (concat_s (List.concat (map (fun e => if is_false (e_cond e) then [] else [item_text nm (e_vars e) (body_t e)]) effs))
+            = concat_s (map (fun p => fst p ++ snd p) (map (fun e => (pre_t e, unit_t e)) K))) as C.
+    { unfold K. clear. induction effs as [|e l IH]; [reflexivity|]. cbn [map List.concat filter].
+      destruct (is_false (e_cond e)); cbn [negb app map concat_s fst snd]; rewrite ?IH; [reflexivity|].
+      cbn [concat_s app]. rewrite item_split, <- IH. reflexivity. }
+    eexists; split; [reflexivity|]. rewrite C.
+    set (pairs := map (fun e => (pre_t e, unit_t e)) K).
+    assert (("(and" ++ concat_s (map (fun p => fst p ++ snd p) pairs) ++ ")") = tl (shiftl "and" pairs)) as TL.
+    { unfold tl. rewrite shift_cat. cbn [append]. rewrite ?app_assoc_s. reflexivity. }
+    rewrite TL.
+    assert (PT (tl (shiftl "and" pairs)) (SList (Atom "and" :: map item0 K))) as [L C'].
+    { split.
+      - apply LX_tl2; [apply shift_F2; [apply LX_atom; reflexivity|apply units_F2, HK]|apply shift_ok, units_ok].
+      - apply clean_tl, shift_clean; [apply units_clean, HK|reflexivity]. }
+    unfold parse_effects_text. rewrite C', (lex_of_LX _ _ L). inversion P1 as [P1e]. rewrite P1e. exact P2.
+  Qed.
 End EffRoundTrip.
 
 (* ================================================================== "#t" never occurs in a printed expression *)
@@ -691,4 +871,50 @@ Proof.
   intros F H. destruct (norm_effs_fired simp isb sc I effs acts F H) as (acts' & A1 & A2).
   exists acts'. split; [exact A1|]. destruct (same_successor P s acts acts' A2) as [B1 B2].
   split; [symmetry; exact B1|]. intros f args. symmetry. apply B2.
+Qed.
+
+Theorem effects_text_roundtrip_full (simp : expr -> expr) (isb : N -> bool) (nm : naming) (E : env) :
+  (forall f, PddlExpr.e_fl E (nm_fl nm f) = Some f) -> (forall f, is_kw (nm_fl nm f) = false) ->
+  (forall o, e_obj E (nm_obj nm o) = Some o) -> (forall o, PddlExpr.e_fl E (nm_obj nm o) = None) ->
+  (forall o, starts_q (nm_obj nm o) = false) -> (forall p, e_par E (nm_par nm p) = Some p) ->
+  (forall v, e_var E (nm_var nm v) = Some v) -> (forall p v, nm_par nm p <> nm_var nm v) ->
+  (forall t, e_ty E (nm_ty nm t) = Some t) -> (forall t, starts_q (nm_ty nm t) = false) ->
+  (forall s q, parse_number s = Some q -> PddlExpr.e_fl E s = None /\ e_obj E s = None) ->
+  (forall f, is_eff_kw (nm_fl nm f) = false) ->
+  (forall f, (nm_fl nm f =? "#t") = false) -> (forall o, (nm_obj nm o =? "#t") = false) ->
+  (forall t, (nm_ty nm t =? "#t") = false) ->
+  (forall f, name_ok (nm_fl nm f) = true) -> (forall o, name_ok (nm_obj nm o) = true) ->
+  (forall p, name_ok (nm_par nm p) = true) -> (forall v, name_ok (nm_var nm v) = true) ->
+  (forall t, name_ok (nm_ty nm t) = true) ->
+  forall (rewrite : bool) (effs : list effect),
+    forallb (pddl_eff_ok simp isb) effs = true ->
+    exists t, print_effects_text simp nm rewrite effs = Some t
+              /\ parse_effects_text simp E isb t = Some (norm_effs effs).
+Proof.
+  intros H1 H2 H3 H4 H5 H6 H7 H8 H9 H10 H11 HK X1 X2 X3 N1 N2 N3 N4 N5 rw effs Hok.
+  apply (effects_text_roundtrip simp isb nm E H1 H2 H3 H4 H5 H6 H7 H8 H9 H10 H11 HK (print_no_hash nm X1 X2 X3) N1 N2 N3 N4 N5).
+  apply Forall_forall. intros e He. rewrite forallb_forall in Hok. apply Hok. exact He.
+Qed.
+
+Definition ex_effects_text_roundtrip (simp : expr -> expr) (isb : N -> bool) :=
+  effects_text_roundtrip_full simp isb ex_nm ex_env (pref_ok "x") (fun f => eq_refl) (pref_ok "b") (fun o => eq_refl)
+    (fun o => eq_refl) (pref_ok "p") (pref_ok "v") (fun p v (H : pref_nm "p" p = pref_nm "v" v) => ltac:(discriminate H))
+    (pref_ok "t") (fun t => eq_refl) ex_num (fun f => eq_refl) (fun f => eq_refl) (fun o => eq_refl) (fun t => eq_refl)
+    (fun f => pref_name_ok "x" f eq_refl) (fun o => pref_name_ok "b" o eq_refl)
+    (fun p => pref_name_ok "p" p eq_refl) (fun v => pref_name_ok "v" v eq_refl) (fun t => pref_name_ok "t" t eq_refl).
+
+(* ================================================================== the typed parameter list of an action *)
+Lemma params_roundtrip (nm : naming) (E : env) :
+  (forall p, e_par E (nm_par nm p) = Some p) -> (forall t, e_ty E (nm_ty nm t) = Some t) ->
+  (forall t, starts_q (nm_ty nm t) = false) ->
+  forall ps, forallb is_atom (print_pars nm ps) = true
+             /\ exists nps, parse_vars E [] (print_pars nm ps) = Some nps
+                            /\ sequence (map (fun p => option_map (fun i => (i, snd p)) (e_par E (fst p))) nps) = Some ps.
+Proof.
+  intros Hp Ht Hq ps.
+  set (nm' := {| nm_fl := nm_fl nm; nm_obj := nm_obj nm; nm_par := nm_par nm; nm_var := nm_par nm; nm_ty := nm_ty nm |}).
+  set (E' := {| PddlExpr.e_fl := PddlExpr.e_fl E; e_obj := e_obj E; e_par := e_par E; e_var := e_par E; e_ty := e_ty E |}).
+  split; [exact (print_vars_atoms nm' ps)|]. exists (scope_names nm' ps). split.
+  - exact (parse_print_vars nm' E Ht Hq ps).
+  - exact (seq_scope nm' E' Hp ps).
 Qed.
